@@ -4,6 +4,7 @@ import MosnVerif.Lemmas.HpackInt
 import MosnVerif.Lemmas.H2Frame
 import MosnVerif.Lemmas.HpackTable
 import MosnVerif.Lemmas.HpackWire
+import MosnVerif.Lemmas.HpackEmit
 /-!
 # C18 — HTTP/2 wire compatibility and flow control (property theorems only)
 
@@ -311,6 +312,56 @@ example : (match runOps Enc.new (Dec.new 4096) demoOps with
     | .ok (e, d, outs) => outs == blocksOf demoOps && e.tab == d.tab && e.tab.ents.length == 1
     | .error _ => false) = true := by decide +kernel
 end table
+
+/-! ## HPACK dynamic table while emitting is switched off (`SetEmitEnabled(false)`, Model/HpackEmit.lean) -/
+section emit
+open MosnVerif.Model.HpackTable MosnVerif.Lemmas.HpackTable MosnVerif.Model.HpackEmit MosnVerif.Lemmas.HpackEmit
+open MosnVerif.Model.HpackAt
+
+/-- **table_sync_emit_disabled**: for EVERY sequence of header blocks and table-size changes in which the framer's emit
+callback switches emitting off at an arbitrary point of any block (`cut`: at its k-th call — header list beyond
+MAX_HEADER_LIST_SIZE, invalid field — or never; `readMetaFrame` re-enables it at the next block), with `wantStr`, the
+guard of `dynTab.add` and the guard of `d.emit` regenerated from parseFieldLiteral / callEmit and table lookups through
+the regenerated, checked `Decoder.at`: no block fails or panics, the callback is handed exactly the fields up to the
+cut, and after every block the decoder's dynamic table stands in the between-blocks relation to the encoder's
+(EQUAL when no size update is pending) — literals with incremental indexing that arrive after the cut-off are in the
+table with their real strings. -/
+theorem table_sync_emit_disabled (ops : List OpE) :
+    ∃ e d, runOpsE codePolicy Enc.new (DecE.new 4096) ops = .ok (e, d, emittedOf ops) ∧ Rel e d.base :=
+  let ⟨e, d, h, hr, _⟩ := runOpsE_sync ops Enc.new (DecE.new 4096) rel_initial (bounded_new 4096 (by decide))
+  ⟨e, d, h, hr⟩
+
+/-- one block: equal tables afterwards wherever the cut is (block non-empty, so nothing is pending) -/
+theorem table_sync_emit_disabled_block (e : Enc) (d : DecE) (fs : List Field) (cut : Option Nat) (h : Rel e d.base)
+    (hb : Bounded d.base) (hne : fs ≠ []) :
+    ∃ d', d.startBlock.applyAllP codePolicy cut (planBlock e fs).2 = .ok (d', emittedPrefix true cut fs) ∧
+      d'.base.tab = (planBlock e fs).1.tab := by
+  obtain ⟨b1, ha, _, heq⟩ := block_sync e d.base fs h
+  have hstart : d.startBlock = { base := d.base, emit := true } := by
+    simp [DecE.startBlock, MosnVerif.Gen.HpackEmit.blockStartsEnabled]
+  obtain ⟨em, hE, _, _⟩ := applyAll_refines (planBlock e fs).2 { base := d.base, emit := true } cut b1 fs hb h.maxStr ha
+  exact ⟨{ base := b1, emit := em }, by rw [hstart]; exact hE, (heq hne).1⟩
+
+/-- the literal cases of parseHeaderFieldRepr (mask, value, prefix size, index type) are the model's `LitKind`s -/
+theorem literal_cases_are_model : MosnVerif.Gen.HpackEmit.literalCases = modelLiteralCases := by decide
+
+-- non-vacuity: emitting is switched off at the first field of block 1, a new indexed literal follows, block 2
+-- references it: the callback gets 1 field of block 1, all of block 2, and the tables are equal (2 entries)
+example : (match runOpsE codePolicy Enc.new (DecE.new 4096) cutDemoOps with
+    | .ok (e, d, outs) => outs == [[⟨[120, 45, 97], [49], false⟩], [⟨[120, 45, 98], [50, 50], false⟩]] &&
+        e.tab == d.base.tab && e.tab.ents.length == 2 && !d.emit == false
+    | .error _ => false) = true := by decide +kernel
+
+/-- **dropped `indexed()`** (machine-checked witness): with `wantStr := d.emitEnabled` the indexed literal that follows
+the cut-off is stored with EMPTY strings and the wrong size; the tables differ after block 1 and block 2, which the
+encoder writes as one indexed field, decodes to an empty header instead of `x-b: 22`. -/
+theorem dropped_indexed_desyncs :
+    (match runOpsE dropIndexedPolicy Enc.new (DecE.new 4096) cutDemoOps with
+     | .ok (e, d, outs) => e.tab != d.base.tab && d.base.tab.ents == [([120, 45, 97], [49]), ([], [])] &&
+         outs == [[⟨[120, 45, 97], [49], false⟩], [⟨[], [], false⟩]]
+     | .error _ => false) = true := by decide +kernel
+
+end emit
 
 /-! ## Huffman code table (regenerated from tables.go) -/
 section huffman
